@@ -325,8 +325,8 @@ theorem driver_run_is_model_run (f : Facts) (evs : List (Ev LFrame)) :
   · rw [← hmap]; rfl
 
 /-- … and the frames it runs on are consistent, so `whole_frames` applies to its runs. -/
-theorem driver_frames_consistent (l : LFrame) (hid : l.id < 2^64) (hbf : l.bfmt < 2^16)
-    (hlen : 48 + l.query.length + l.blen < 2^64) : l.message.WF := lframe_wf l hid hbf hlen
+theorem driver_frames_consistent (l : LFrame) (hid : l.id < 2^64) (hqf : l.qfmt < 2^16) (hbf : l.bfmt < 2^16)
+    (hlen : 48 + l.query.length + l.blen < 2^64) : l.message.WF := lframe_wf l hid hqf hbf hlen
 
 /-! ### non-vacuity -/
 
